@@ -966,6 +966,14 @@ fn main() {
                     let f = scenario_fn(&scenario, &tr.machine);
                     let res = std::panic::catch_unwind(std::panic::AssertUnwindSafe(|| shuttle::replay_from_file(move || f(), sf)));
                     if res.is_err() {
+                        let msg = machines::last_panic_message();
+                        // shuttle's replay scheduler panics when the execution asks for a step the
+                        // recorded schedule does not contain: the run diverged from the recording,
+                        // which is the opposite of a reproduction
+                        if msg.contains("@replay.rs") || msg.contains("next schedule step") || msg.contains("schedule ended") {
+                            println!("NOT REPRODUCED: the execution diverges from the recorded shuttle schedule {} ({}): the recorded failure was not a function of seed and schedule", sf, msg);
+                            std::process::exit(0);
+                        }
                         println!("REPRODUCED property={} invariant={} : thread-level (shuttle schedule {})", r.property, r.invariant, sf);
                         std::process::exit(1);
                     }
@@ -1056,6 +1064,7 @@ fn main() {
         }
     }
     let mut violations = 0;
+    let mut nondeterministic = false;
     if let Some((o, tr, v)) = first {
         violations = 1;
         eprintln!("[sim-threads] violation in shard {} ({} {} {} seed {}): {} : {}", o.shard, o.scenario, o.machine, o.scheduler, o.seed, v.invariant, v.detail);
@@ -1089,7 +1098,16 @@ fn main() {
         std::fs::write(&path, serde_json::to_string_pretty(&j).unwrap()).expect("write replay");
         let mv = min.violation.as_ref().unwrap_or(v);
         println!("[sim-threads] {}: {}", mv.invariant, mv.detail);
-        println!("VIOLATION property={} replay={}", mv.property, path.display());
+        // a failure is only reported once its replay file reproduces it in a fresh process
+        let exe = std::env::current_exe().expect("current_exe");
+        let outp = std::process::Command::new(exe).arg("replay").arg(&path).output().expect("spawn replay");
+        if outp.status.code() != Some(1) {
+            nondeterministic = true;
+            violations = 0;
+            println!("[sim-threads] NONDETERMINISTIC-FAILURE: the replay of {} in a fresh process does not reproduce it ({}). The execution was not a function of seed and schedule: the library's answer depended on something the scheduler does not own (e.g. process-global state raced by the shards, which run as real threads of one process). Engine C (Miri owns pre-emption inside library calls) is the engine for that.", path.display(), String::from_utf8_lossy(&outp.stdout).lines().last().unwrap_or(""));
+        } else {
+            println!("VIOLATION property={} replay={}", mv.property, path.display());
+        }
     }
     let wall = t0.elapsed().as_secs_f64();
     let j = json!({
@@ -1121,5 +1139,5 @@ fn main() {
         std::fs::create_dir_all(p).ok();
     }
     std::fs::write(&out, serde_json::to_string_pretty(&j).unwrap()).expect("write partial");
-    std::process::exit(if violations > 0 { 1 } else { 0 });
+    std::process::exit(if nondeterministic { 2 } else if violations > 0 { 1 } else { 0 });
 }
